@@ -373,7 +373,9 @@ class C04(Property):
             elif f == "extend":
                 oi = drv["on_impl"]
                 if drv["arc"]:
-                    spec_ok = oi["canon"] == drv["expected"] and oi["inside"]
+                    # a span stays a well-formed span: one part, or two disjoint parts meeting at the origin
+                    spec_ok = oi["canon"] == drv["expected"] and oi["inside"] and (
+                        oi["area_wf"] or any(p[2] == -1 for p in case["a"]["parts"]))
                     tags.append("arc")
                 else:   # multi-exon input: outer ends only; introns are not filled (by design)
                     spec_ok = oi["covers_input"] and oi["within_expected"] and oi["inside"]
